@@ -4,6 +4,12 @@ From V.Gen Require Import GenSrc.
 From V.Model Require Import Conv.
 From V.Proofs Require Import TemplatesProofs SrcObligationsGen ConvAgree ConvCfg.
 
+(* tie obligation (fixed finding F43): the TypedDict structure generator binds a reference cycle late in BOTH validation modes -- every
+   attribute hook lookup catches the RecursionError that signals "already being generated" (the fast branch used not to, and a
+   TypedDict reaching itself through a mapping could be structured in detailed mode only) *)
+Lemma src_td_structure_binds_cycles_late_in_both_modes : src_td_structure_lookups_catch_cycles = true.
+Proof. reflexivity. Qed.
+
 (* Class level, for the template flags translated from the current source.
    For EVERY payload value type V, field converter K, class definition fs
    (any number, order and mix of required / defaulted / factory / kw_only /
